@@ -232,7 +232,10 @@ def bindings_config(n: int, missing: int, has_missing: bool, order: int) -> bool
         return has_missing
     if has_missing:
         return False
-    return all(b.get_config("E%d" % i) == "c%d" % i and b.get_prefix("E%d" % i) == "p%d" % i for i in range(n))
+    # every Einsum keeps its own config/prefix and its component entries, wherever the config entry is listed
+    return all(b.get_config("E%d" % i) == "c%d" % i and b.get_prefix("E%d" % i) == "p%d" % i and
+               b.get_bindings()["E%d" % i] == {"X": [{"op": "mul"}]} and b.get_component("X").get("E%d" % i) == [{"op": "mul"}]
+               for i in range(n))
 
 
 def bindings_twin(n: int, missing: int, has_missing: bool, order: int) -> bool:
